@@ -22,6 +22,16 @@ def run_case(case, rec, cid):
     set_mode(case["mode"])
     rec.begin(cid)
     p = mk_tp(case["p"])
+    _one(case, rec, cid, p)
+    if case.get("also") is not None:       # the same instant written differently, dumped in the same process
+        import random
+        from harness.common import respellings
+        for q in respellings(p, random.Random(case["also"])):
+            _one(case, rec, cid, q)
+    return True
+
+
+def _one(case, rec, cid, p):
     xd = case["p"].get("xd", 0)
 
     def f():
@@ -91,7 +101,10 @@ def expand(job):
         # years at the edge of the dumper's range would be pushed out of it by a literal-zone format
         inner = (1 <= p["y"] <= 9998) if not p.get("xd") else abs(p["y"]) <= 10 ** (4 + p["xd"]) - 3
         fm = formats(rnd, p) if inner else []
-        yield {"mode": sp, "p": p, "fmts": fm}
+        case = {"mode": sp, "p": p, "fmts": fm}
+        if inner and p["prec"] == "hms" and not p.get("dec") and p["hh"] < 24 and rnd.random() < 0.12:
+            case["also"] = rnd.randrange(10 ** 6)
+        yield case
 
 
 def jobs(tier, seed):
